@@ -212,6 +212,8 @@ def pull_step(vm, st, nf, value):
             return fork_bool(vm, st, value, keep, dropit)
         elif kind == 'flat_map':
             inner = deref(vm, st, value)
+            if isinstance(inner, VecV):          # any IntoIterator: a Vec yields its elements
+                inner = IterV(inner.items)
             if not isinstance(inner, IterV) or inner.stages:
                 raise Unsupported(f'flat_map closure returned {inner!r}')
             # splice the inner items in front of the remaining outer ones; they continue after this stage
